@@ -333,10 +333,20 @@ func c11(c *ctx) {
 				}
 				for _, whole := range []bool{true, false} {
 					key := fmt.Sprintf("debug/dialer/%d/%d/%d/%v", padLen, ti, rb, whole)
-					if !vh.Only(key) {
-						continue
+					if vh.Only(key) {
+						emit(debugDial(key, padLen, tr, rb, whole), fmt.Sprintf("debug/dialer/%d/%d/%v", ti, rb, whole))
 					}
-					emit(debugDial(key, padLen, tr, rb, whole), fmt.Sprintf("debug/dialer/%d/%d/%v", ti, rb, whole))
+					// the same with bare LF line ends (which the dialer accepts), all through or mixed
+					if padLen%5 == 0 || c.thorough {
+						for ei, eol := range []string{"\n", "mixed"} {
+							debugDialEOL = eol
+							k2 := fmt.Sprintf("debuglf/dialer/%d/%d/%d/%v/%d", padLen, ti, rb, whole, ei)
+							if vh.Only(k2) {
+								emit(debugDial(k2, padLen, tr, rb, whole), fmt.Sprintf("debuglf/dialer/%d/%d/%v/%d", ti, rb, whole, ei))
+							}
+							debugDialEOL = "\r\n"
+						}
+					}
 				}
 			}
 		}
@@ -410,6 +420,9 @@ func c11(c *ctx) {
 // debugDial dials through wsutil.DebugDialer against a scripted server whose
 // response head has a pad header of padLen bytes and is followed by trailing
 // frames, either in the same segment (whole) or in small reads.
+// debugDialEOL: the line end of the scripted response ("\r\n", "\n" or "mixed").
+var debugDialEOL = "\r\n"
+
 func debugDial(key string, padLen int, trailing []byte, rb int, whole bool) map[string]interface{} {
 	mk := func() (*peerConn, *[]byte) {
 		pc := &peerConn{trailing: trailing}
@@ -418,8 +431,17 @@ func debugDial(key string, padLen int, trailing []byte, rb int, whole bool) map[
 		}
 		head := new([]byte)
 		pc.build = func(k string) []byte {
-			*head = []byte("HTTP/1.1 101 Switching Protocols\r\nUpgrade: websocket\r\nConnection: Upgrade\r\nX-Pad: " + strings.Repeat("p", padLen) +
-				"\r\nSec-WebSocket-Accept: " + acceptFor(k) + "\r\n\r\n")
+			lines := []string{"HTTP/1.1 101 Switching Protocols", "Upgrade: websocket", "Connection: Upgrade", "X-Pad: " + strings.Repeat("p", padLen),
+				"Sec-WebSocket-Accept: " + acceptFor(k), ""}
+			var b []byte
+			for i, l := range lines {
+				eol := debugDialEOL
+				if eol == "mixed" {
+					eol = []string{"\r\n", "\n"}[(i+padLen)%2]
+				}
+				b = append(append(b, l...), eol...)
+			}
+			*head = b
 			return *head
 		}
 		return pc, head
